@@ -357,7 +357,7 @@ pub fn run(sc: &Scenario, opts: &RunOptions) -> RunRecord {
         let guard_ok = next_seg < segs.len()
             && segs[next_seg]
                 .need_responses
-                .map_or(true, |n| responses_seen >= n);
+                .map_or(true, |n| responses_seen >= n || rx_closed); // a client that closed its read end no longer waits
         let tx_pending_close = next_seg >= segs.len() && close_after_last && !stdin_closed;
         if (guard_ok && now >= seg_ready_at) || tx_pending_close {
             enabled.push(ACTOR_CLIENT_TX);
